@@ -30,8 +30,12 @@ def _nontrivial(ops, outs):
 CFG = PropCfg(
     "C19", "HopModel.Props.C19",
     [SuiteCfg("C19", signature=_sig, nontrivial=_nontrivial, classify=lambda op, out: _verb(op) + " " + out.split(" ")[0],
-              parts_thorough=16, timeout=3000)],
-    rule="a case is a sequence of datagrams against one real transport.Server (discoverable or hidden): client hellos "
+              parts_thorough=16, timeout=3000),
+     # hidden-mode servers as hopd builds them (hopserver.NewHopServer), real clients over loopback UDP (C01's harness)
+     SuiteCfg("C19hid", binary="C01", stateless=True, parts_thorough=1, nontrivial=lambda ops, outs: True)],
+    rule="suite C19hid (C01's harness): a real hopserver.NewHopServer with HiddenModeVHostNames set and the KEM key configured at "
+         "the top level, only in the virtual host's block, or both: a discoverable handshake gets no answer, a client that "
+         "knows the KEM key is served. suite C19: a case is a sequence of datagrams against one real transport.Server (discoverable or hidden): client hellos "
          "from several addresses (also two clients sharing an address), client acks delivered from the minting "
          "address, another IP, another port, with another client's cookie (other key), after a forced cookie-key "
          "rotation, with a flipped byte in each field; hidden mode: valid requests, requests under a wrong KEM key, "
